@@ -1248,7 +1248,7 @@ impl Machine {
                 for a in &args {
                     let s = Self::string(a)?;
                     let chars: Vec<char> = s.s.borrow().clone();
-                    strs.push(if ci { chars.into_iter().map(fold_char).collect() } else { chars });
+                    strs.push(if ci { fold_str(&chars) } else { chars });
                 }
                 let op = name.trim_start_matches("string-ci").trim_start_matches("string");
                 let mut ok = true;
@@ -1294,7 +1294,7 @@ impl Machine {
                 let out: Vec<char> = match name {
                     "string-upcase" => text.to_uppercase().chars().collect(),
                     "string-downcase" => text.to_lowercase().chars().collect(),
-                    _ => text.chars().map(fold_char).collect(),
+                    _ => fold_str(&text.chars().collect::<Vec<char>>()),
                 };
                 V::Str(Rc::new(StrObj {
                     s: RefCell::new(out),
@@ -1327,6 +1327,7 @@ impl Machine {
                             _ => c,
                         }
                     }
+                    "char-downcase" => lower_char(c),
                     _ => fold_char(c),
                 })
             }
@@ -1411,9 +1412,30 @@ impl Default for Machine {
     }
 }
 
-/// simple case folding for the generator's palette (where lower-casing a single character and
-/// Unicode simple case folding coincide)
+/// Unicode simple case folding (CaseFolding.txt statuses C and S), from a table generated with
+/// CPython's unicodedata: a source independent of the Rust tables marwood uses
 pub fn fold_char(c: char) -> char {
+    use super::casefold_table::SIMPLE;
+    match SIMPLE.binary_search_by_key(&(c as u32), |e| e.0) {
+        Ok(i) => char::from_u32(SIMPLE[i].1).unwrap_or(c),
+        Err(_) => c,
+    }
+}
+
+/// Unicode full case folding (statuses C and F) of a string
+pub fn fold_str(chars: &[char]) -> Vec<char> {
+    use super::casefold_table::FULL;
+    let mut out = Vec::with_capacity(chars.len());
+    for c in chars {
+        match FULL.binary_search_by_key(&(*c as u32), |e| e.0) {
+            Ok(i) => out.extend(FULL[i].1.iter().filter_map(|u| char::from_u32(*u))),
+            Err(_) => out.push(fold_char(*c)),
+        }
+    }
+    out
+}
+
+fn lower_char(c: char) -> char {
     let mut it = c.to_lowercase();
     match (it.next(), it.next()) {
         (Some(l), None) => l,
